@@ -644,6 +644,17 @@ func famC12pk(out string) {
 			if *pp != nil {
 				ok = (*pp).probe(8 * time.Second)
 			}
+			if !ok && c.alive() {
+				// a loaded machine is not an unresponsive node: one more connection with a long wait before the verdict
+				if *pp != nil {
+					(*pp).c.Close()
+				}
+				stats["probes-repeated-with-long-wait"]++
+				*pp = connect(c)
+				if *pp != nil {
+					ok = (*pp).probe(45 * time.Second)
+				}
+			}
 		}
 		r.Responsive = ok
 		o := c.obs()
